@@ -21,7 +21,7 @@ RULE = ("cases = chunks of the full product {13 amounts (quick; ~110 in thorough
         "special tags, or amount is zero/negative-zero (sign boundary); inputs are distinct by construction")
 ASSUMPTIONS = ["the JavaScript classification functions are executed under node, not inside a browser/Vue app",
                "tags are strings (non-string tags are outside the property)",
-               "python side additionally compared with the reference bucket rule of the property statement"]
+               "python side additionally compared with the reference bucket rule for tag lists built from exact special tags (any letter case) and ordinary tags; look-alike spellings (padded, sub-typed, non-ASCII) are judged on agreement only"]
 
 JS_DRIVER = os.path.join(H.VERIF_ROOT, "mc", "js", "c13_driver.js")
 JS_SRC = os.path.join(H.SRC, "tally", "spending_report.js")
@@ -32,6 +32,11 @@ SPECIAL = ["income", "transfer", "investment"]
 
 def _forms(t):
     return [t, t.upper(), t.title(), "".join(c.upper() if i % 2 else c for i, c in enumerate(t))]
+
+
+# hand-made look-alike tag lists (padded, sub-typed, non-ASCII ...): the property only asks that browser and command line AGREE on them;
+# which of these spellings count as special is not fixed by it, so they are not compared with the statement's bucket rule
+LOOKALIKES = set()
 
 
 def tag_lists():
@@ -47,6 +52,7 @@ def tag_lists():
                         if place in ("after", "both"):
                             tl = tl + ["Zeta"]
                         out.append(tl)
+    n_product = len(out)
     out += [None, [""], [" income"], ["income "], ["incomes"], ["transfers"], ["reinvestment"], ["in come"],
             ["income", "income"], ["Income", "INCOME", "transfer"],
             ["income:salary"], ["transfer:out"], ["investment:ira"], ["Income:Salary", "food"], ["income.salary"], ["income-salary"], ["income_salary"],
@@ -55,11 +61,13 @@ def tag_lists():
             ["\u0130ncome"], ["\u0131nvestment"], ["tran\u017ffer"], ["INCOME\u0307"], ["\uff49ncome"], ["TRANSFER\u00a0"], ["\ufeffincome"], ["inco\u00adme"]]
     # de-duplicate, keep order
     seen, res = set(), []
-    for t in out:
+    for i, t in enumerate(out):
         k = json.dumps(t)
         if k not in seen:
             seen.add(k)
             res.append(t)
+            if i >= n_product and t not in (None, [""]):
+                LOOKALIKES.add(k)
     return res
 
 
@@ -130,7 +138,10 @@ def check_case(case):
             viol.append({"kind": "bucket-mismatch", "detail": {"python": py, "js": jsc}, "case": sub})
         if bool(r["ex"]) != bool(pyex):
             viol.append({"kind": "excluded-mismatch", "detail": {"python": pyex, "js": r["ex"]}, "case": sub})
-        # python against the statement's own rule
+        if json.dumps(tags) in LOOKALIKES:
+            outcomes.add("lookalike-agree")
+            continue
+        # python against the statement's own rule (exact special tags in any letter case, ordinary tags, missing / empty lists)
         refb = money.bucket(amount, tags)
         if amount != 0 and (pyb != [refb] or py[refb] != abs(amount)):
             viol.append({"kind": "python-vs-reference", "detail": {"python": py, "reference_bucket": refb}, "case": sub})
